@@ -197,13 +197,13 @@ def lib_deepcopy(ip, st, pos, kws):
     from .sym import ValCell, LstCell, PyListCell, Tup, Opaque
     v = pos[0]
     ip.assumptions.add("library contract (tier A): copy.deepcopy returns an equal value sharing no mutable object with its argument")
-    r = _deep(ip, st, v)
+    r = _deep(ip, st, v, deep=True)
     if isinstance(r, Ref):
         st.notes["deep_copies"] = set(st.notes.get("deep_copies", ())) | {r.cid}
     return [(st, r)]
 
 
-def _deep(ip, st, v):
+def _deep(ip, st, v, deep=False):
     from .sym import ValCell, LstCell, PyListCell, PyDictCell, Tup, Opaque
     if isinstance(v, Ref):
         cell = st.heap[v.cid]
@@ -212,14 +212,18 @@ def _deep(ip, st, v):
         if isinstance(cell, LstCell):
             return ip.new_cell(st, LstCell(ip.deref(st, v)))
         if isinstance(cell, PyListCell):
-            return ip.new_cell(st, PyListCell([_deep(ip, st, x) for x in cell.items]))
+            return ip.new_cell(st, PyListCell([_deep(ip, st, x, deep) for x in cell.items]))
         if isinstance(cell, PyDictCell):
-            return ip.new_cell(st, PyDictCell({k: _deep(ip, st, x) for k, x in cell.items.items()}))
+            return ip.new_cell(st, PyDictCell({k: _deep(ip, st, x, deep) for k, x in cell.items.items()}))
         raise U("deepcopy of " + type(cell).__name__)
     if isinstance(v, Opaque) and v.sort == "Val":
         return ip.new_cell(st, ValCell(v.t))
     if isinstance(v, Tup):
-        return Tup([_deep(ip, st, x) for x in v.items])
+        return Tup([_deep(ip, st, x, deep) for x in v.items])
+    if deep and isinstance(v, Opaque) and v.sort == "Obj":
+        # copy.deepcopy of an abstract element: a NEW object (ghost allocation clock, see histlib)
+        from .histlib import alloc_copy
+        return alloc_copy(ip, st, v)
     return v
 
 
